@@ -2,7 +2,7 @@
 from hypothesis import strategies as st
 from .. import boot, core, api, proggen, tracer
 
-EXAMPLES = {"quick": 14, "thorough": 400}
+EXAMPLES = {"quick": 36, "thorough": 400}
 
 
 @st.composite
